@@ -18,6 +18,17 @@ def run(call):
             arr = numpy.array(vals, dtype=object) if call.get("as_array") else vals
             r = H.encode(arr)
             return {"kind": "return", "value": {"ok": False, "encoded": [int(x) for x in r]}}
+        if mode == "names":
+            from openfisca_core import indexed_enums
+            names = call["names"]
+            H = indexed_enums.Enum("H", {nm: "value " + nm for nm in names})
+            vals = list(call["values"])
+            arr = numpy.array(vals) if call.get("as_array") else vals
+            r = _utils._str_to_index(H, arr)
+            if len(r) != len(vals):
+                return {"kind": "return", "value": {"ok": all(v in names for v in vals) is False, "dropped": len(vals) - len(r)}}
+            bad = [(v, int(x)) for v, x in zip(vals, r) if not (0 <= int(x) < len(names)) or names[int(x)] != v]
+            return {"kind": "return", "value": {"ok": not bad, "name-vs-index": bad[:4], "declared": names}}
         n = max(1, int(call["n"]))
         H = make_enum(n)
         vals = [int(v) for v in call["values"]]
